@@ -51,6 +51,7 @@ type replay struct {
 	Procs    int        `json:"procs,omitempty"`
 	Race     bool       `json:"race,omitempty"`
 	Monitors bool       `json:"monitors,omitempty"`
+	Profile  string     `json:"profile,omitempty"`
 	Ops      [][]string `json:"schedule,omitempty"`
 	Detail   string     `json:"detail,omitempty"`
 	Resources string    `json:"resources,omitempty"`
@@ -252,27 +253,48 @@ type episode struct {
 	monitors bool
 	gor, ops int
 	schedule [][]string
+	profile  string // "core" | "lifecycle"
 }
+
+var lifecycleKnownKinds = map[string]bool{"final-sync-failed": true, "still-open": true, "restore-mismatch": true,
+	"snapshot-content-mismatch": true, "read-lock-leaked": true, "fd-leak": true}
 
 var raceRe = regexp.MustCompile(`(?s)WARNING: DATA RACE.*?==================`)
 
-// raceSignature: the two topmost litestream frames of the report (stable across runs).
+// raceSignature: the litestream functions that perform the unsynchronised WRITE(s) of the report
+// (top litestream frame of each access stack that is a write). Stable across runs and line changes.
 func raceSignature(rep string) string {
-	fr := regexp.MustCompile(`github\.com/benbjohnson/litestream\.([A-Za-z0-9_.()*]+)`).FindAllStringSubmatch(rep, -1)
-	var fs []string
-	seen := map[string]bool{}
-	for _, f := range fr {
-		n := strings.NewReplacer("(*", "", ")", "").Replace(f[1])
-		if !seen[n] && len(fs) < 2 {
-			seen[n] = true
-			fs = append(fs, n)
+	blocks := regexp.MustCompile(`(?m)^(Write|Read|Previous write|Previous read|Atomic write|Previous atomic write|Atomic read|Previous atomic read) at [^\n]*\n((?:  [^\n]*\n)+)`).FindAllStringSubmatch(rep, -1)
+	fnRe := regexp.MustCompile(`github\.com/benbjohnson/litestream(?:/[a-z0-9/]+)?\.([A-Za-z0-9_.()*]+)\(\)`)
+	var writers, all []string
+	for _, b := range blocks {
+		m := fnRe.FindStringSubmatch(b[2])
+		if m == nil {
+			continue
+		}
+		n := strings.NewReplacer("(*", "", ")", "").Replace(m[1])
+		if i := strings.Index(n, ".func"); i > 0 {
+			n = n[:i]
+		}
+		all = append(all, n)
+		if strings.Contains(strings.ToLower(b[1]), "write") {
+			writers = append(writers, n)
 		}
 	}
-	sort.Strings(fs)
-	if len(fs) == 0 {
+	if len(writers) == 0 {
+		writers = all
+	}
+	sort.Strings(writers)
+	var u []string
+	for _, w := range writers {
+		if len(u) == 0 || u[len(u)-1] != w {
+			u = append(u, w)
+		}
+	}
+	if len(u) == 0 {
 		return "unknown"
 	}
-	return strings.Join(fs, "+")
+	return "write:" + strings.Join(u, "+")
 }
 
 func runEpisode(bin string, e episode, timeout time.Duration) (*childResult, string, error) {
@@ -283,6 +305,19 @@ func runEpisode(bin string, e episode, timeout time.Duration) (*childResult, str
 	defer os.RemoveAll(tmp)
 	outp := filepath.Join(tmp, "result.json")
 	args := []string{"-seed", fmt.Sprint(e.seed), "-procs", fmt.Sprint(e.procs), "-goroutines", fmt.Sprint(e.gor), "-ops", fmt.Sprint(e.ops), "-out", outp}
+	args = append(args, "-discipline", "strict")
+	if e.profile == "core" {
+		// the operations of the property without the triggers of the findings recorded in KNOWN_FINDINGS.json
+		// (object lifecycle races of Store.Register/Unregister/Enable/Disable/SyncDB, DB.init after a cancelled
+		// context, FULL checkpoints): every oracle kind counts here
+		ex := "unreg,reg,regstorm,disable,enable,storesync,chk:FULL"
+		if e.monitors {
+			// with the store's monitors running, snapshots/compactions/retention are theirs (one goroutine per
+			// level, as in the daemon); API-level concurrent DB.Snapshot calls share one temp file (known, api-only)
+			ex += ",snap,compact,snapret,l0ret"
+		}
+		args = append(args, "-nocancel", "-exclude", ex)
+	}
 	if e.monitors {
 		args = append(args, "-monitors")
 	}
@@ -297,7 +332,7 @@ func runEpisode(bin string, e episode, timeout time.Duration) (*childResult, str
 	cmd := exec.CommandContext(ctx, bin, args...)
 	cmd.SysProcAttr = &syscall.SysProcAttr{Setpgid: true}
 	cmd.Cancel = func() error { return syscall.Kill(-cmd.Process.Pid, syscall.SIGKILL) }
-	cmd.Env = append(os.Environ(), "GORACE=halt_on_error=0 history_size=5", "TMPDIR="+tmp)
+	cmd.Env = append(os.Environ(), "TMPDIR="+tmp)
 	var stderr bytes.Buffer
 	cmd.Stderr = &stderr
 	cmd.Stdout = &stderr
@@ -349,10 +384,12 @@ func dynamicPhase(o *hx.Opts, res *hx.Result, replayEp *episode) int {
 			nPlain, nRace, gor, ops = 10, 6, 10, 50
 		}
 		for i := 0; i < nPlain; i++ {
-			eps = append(eps, episode{seed: r.Uint64() % 1000000, procs: procs[(int(o.Seed)+i)%len(procs)], gor: gor, ops: ops, monitors: i%3 == 2})
+			eps = append(eps, episode{seed: r.Uint64() % 1000000, procs: procs[(int(o.Seed)+i)%len(procs)], gor: gor, ops: ops, monitors: i%3 == 2,
+				profile: []string{"core", "lifecycle"}[i%2]})
 		}
 		for i := 0; i < nRace; i++ {
-			eps = append(eps, episode{seed: r.Uint64() % 1000000, procs: procs[(int(o.Seed)+i+1)%len(procs)], race: true, gor: gor, ops: ops * 2 / 3, monitors: i%2 == 1})
+			eps = append(eps, episode{seed: r.Uint64() % 1000000, procs: procs[(int(o.Seed)+i+1)%len(procs)], race: true, gor: gor, ops: ops * 2 / 3, monitors: i%2 == 1,
+				profile: []string{"lifecycle", "core"}[i%2]})
 		}
 	}
 	failures := 0
@@ -365,7 +402,8 @@ func dynamicPhase(o *hx.Opts, res *hx.Result, replayEp *episode) int {
 		cr, stderr, err := runEpisode(bins[e.race], e, to)
 		key := fmt.Sprintf("dyn/episodes race=%v", e.race)
 		res.Count(key)
-		rp := replay{Kind: "stress", Engine: "c12", Seed: e.seed, Procs: e.procs, Race: e.race, Monitors: e.monitors}
+		rp := replay{Kind: "stress", Engine: "c12", Seed: e.seed, Procs: e.procs, Race: e.race, Monitors: e.monitors, Profile: e.profile}
+		res.Count("dyn/profile " + e.profile)
 		if err != nil {
 			failures++
 			rp.Detail = tail(stderr, 6000)
@@ -385,6 +423,11 @@ func dynamicPhase(o *hx.Opts, res *hx.Result, replayEp *episode) int {
 		for _, v := range cr.Violations {
 			failures++
 			sig := "C12/stress/" + v["kind"]
+			if e.profile == "lifecycle" && lifecycleKnownKinds[v["kind"]] {
+				// consequences of the object-lifecycle findings (KNOWN_FINDINGS.json); the same kinds are
+				// unmasked in the core profile, and deadlock / panic / regstorm / close-hung are never masked
+				sig = "C12/lifecycle/" + v["kind"]
+			}
 			if reported[sig] {
 				continue
 			}
@@ -399,14 +442,17 @@ func dynamicPhase(o *hx.Opts, res *hx.Result, replayEp *episode) int {
 					continue
 				}
 				failures++
-				sig := "C12/data-race/" + raceSignature(rep)
-				if reported[sig] {
-					continue
+				// one finding per function performing an unsynchronised write
+				for _, w := range strings.Split(strings.TrimPrefix(raceSignature(rep), "write:"), "+") {
+					sig := "C12/data-race/write:" + w
+					if reported[sig] {
+						continue
+					}
+					reported[sig] = true
+					rp2 := rp
+					rp2.Detail = tail(rep, 12000)
+					res.AddFinding("violation", sig, fmt.Sprintf("race detector report in litestream code (seed=%d procs=%d): unsynchronised write in %s", e.seed, e.procs, w), rp2)
 				}
-				reported[sig] = true
-				rp2 := rp
-				rp2.Detail = tail(rep, 12000)
-				res.AddFinding("violation", sig, fmt.Sprintf("race detector report in litestream code (seed=%d procs=%d): %s", e.seed, e.procs, raceSignature(rep)), rp2)
 			}
 		}
 	}
@@ -455,7 +501,7 @@ func main() {
 				os.Exit(1)
 			}
 		case "stress":
-			e := episode{seed: rp.Seed, procs: rp.Procs, race: rp.Race, monitors: rp.Monitors, gor: len(rp.Ops), ops: 30, schedule: rp.Ops}
+			e := episode{seed: rp.Seed, procs: rp.Procs, race: rp.Race, monitors: rp.Monitors, gor: len(rp.Ops), ops: 30, schedule: rp.Ops, profile: rp.Profile}
 			if len(rp.Ops) == 0 {
 				e.gor, e.schedule = 8, nil
 			}
@@ -495,7 +541,11 @@ func main() {
 	}
 
 	staticPhase(o, res, d)
-	dynamicPhase(o, res, nil)
+	if os.Getenv("C12_SKIP_DYNAMIC") != "" { // development aid for mutation trials; never set by registered commands
+		res.Notes = append(res.Notes, "dynamic phase skipped by C12_SKIP_DYNAMIC")
+	} else {
+		dynamicPhase(o, res, nil)
+	}
 	if err := res.Write(o.Out); err != nil {
 		hx.Fatal(err)
 	}
